@@ -1,7 +1,7 @@
 SPECIFICATION TraceSpec
 CONSTANTS
   Configs = {}
-  ClampOnAdd = FALSE
+  ClampOnAdd = TRUE
 INVARIANTS
   TypeOK
   WithinBounds
